@@ -5,7 +5,7 @@
 From Coq Require Import List Arith Bool Lia.
 From Coq Require Import NArith.
 From Verif Require Import Trie.Model Trie.Keys Trie.ProofsWf Trie.ProofsMap Trie.ProofsCanon Trie.Theorems.
-From Verif Require Import State.StackedMap State.ProofsSM State.Model State.ProofsStage.
+From Verif Require Import State.StackedMap State.ProofsSM State.Model State.ProofsStage State.ProofsState State.ProofsJournal State.ProofsReplay State.ProofsCommit.
 Import ListNotations.
 
 Section C06_trie.
@@ -86,46 +86,78 @@ Section C06_stackedmap.
   Proof. intros P. exact (proj1 (run_refines K Vv keqb keqb_spec ops (sm_new K Vv) (inv_new K Vv keqb) P)) || exact (proj1 (run_refines K Vv keqb keqb_spec src ops (sm_new K Vv) (inv_new K Vv keqb) P)). Qed.
 End C06_stackedmap.
 
-(* the key type of state.go satisfies the hypothesis *)
-Lemma skey_eqb_spec a b : skey_eqb a b = true <-> a = b.
-Proof.
-  destruct a, b; cbn; try (split; intros E; discriminate).
-  - rewrite N.eqb_eq. split; intros E; [subst|inversion E]; auto.
-  - rewrite N.eqb_eq. split; intros E; [subst|inversion E]; auto.
-  - rewrite !andb_true_iff, !N.eqb_eq. split; [intros [[-> ->] ->]; auto|intros E; inversion E; auto].
-  - rewrite N.eqb_eq. split; intros E; [subst|inversion E]; auto.
-Qed.
-
-(* Part 3 (state layer, State/Model.v).  Proved here: the staged accounts trie is well formed, hence it is THE
-   canonical trie of its content (any two histories that stage the same account leaves get the same root), and a state
-   re-opened on the committed root reads the staged leaves.  Not proved in this work package (the executable model
-   is tied to the code by the correspondence run instead): state_refines_map (every getter after any history =
-   the abstract record map, including the barrier logic of Delete) and that the staged content is
-   `normalise (abs s)`; see manifest.d/C06.json. *)
+(* Part 3 (state layer, State/Model.v): state.State over the stacked map and the tries. *)
 Section C06_state.
-  Variable hk hs : N -> list nat.
+  Variable hk hs : N -> list nat.                      (* secure keys (Blake2b) of addresses / storage keys, as hex keys *)
   Variable trimkey : N -> bytes.
-  Hypothesis hk_valid : forall a, vkey (hk a).          (* secure keys are terminated hex keys *)
+  Hypothesis hk_valid : forall a, vkey (hk a).
+  Hypothesis hk_inj : forall a b, hk a = hk b -> a = b.
+  Hypothesis hs_valid : forall k, vkey (hs k).
+  Hypothesis hs_inj : forall a b, hs a = hs b -> a = b.
+
+  (* state_refines_map: after ANY history of SetBalance / SetEnergy / SetMaster / SetCode / SetStorage / SetRawStorage /
+     Delete (storage barrier) / NewCheckpoint / RevertTo(n >= 1) on a state opened on any base, the account record,
+     the code and every raw storage slot read what the plain record map `a_step` computes for the same history
+     (setters update the top snapshot, Delete empties account, code and storage, NewCheckpoint copies the top,
+     RevertTo(n) keeps the first n snapshots).  Balance, energy, master, code hash, Exists are fields of the record. *)
+  Theorem state_refines_map base codes ops :
+    Forall state_op ops ->
+    let s := run_state hk hs ops (open base codes) in
+    let x := last (run_abs ops [abs0 hk hs base codes]) dflt in
+    forall a,
+      get_account hk hs s a = x_acc x a /\
+      get_code hk hs s a = x_code x a /\
+      forall k, get_raw_storage hk hs s a k = x_stor x a k.
+  Proof. exact (state_refines_map_lemma hk hs base codes ops). Qed.
+
+  (* the driver of the correspondence run executes exactly these steps on its current state *)
+  Theorem world_runs_state_ops ops w :
+    Forall state_op ops -> w_cur (fold_left (step hk hs trimkey) ops w) = run_state hk hs ops (w_cur w).
+  Proof. intros H. exact (world_run_cur hk hs trimkey ops w H). Qed.
 
   Theorem stage_wf_preserved s major minor :
     wfc aleaf (st_base s) -> wfc aleaf (stage hk hs trimkey s major minor).
   Proof. exact (stage_wf hk hs trimkey hk_valid s major minor). Qed.
 
-  (* partial form of stage_root_canonical: the root is determined by the staged content *)
-  Theorem stage_root_canonical_partial s major minor t :
+  (* stage_root_canonical: the staged accounts trie is THE canonical trie of its content: any well-formed trie
+     with the same leaves is the same tree, so the root is a function of the staged content alone ... *)
+  Theorem stage_root_canonical s major minor t :
     wfc aleaf (st_base s) -> wfc aleaf t ->
     (forall k, vkey k -> trie_get aleaf t k = trie_get aleaf (stage hk hs trimkey s major minor) k) ->
     t = stage hk hs trimkey s major minor.
   Proof. exact (stage_canonical hk hs trimkey hk_valid s major minor t). Qed.
 
-  (* partial form of reopen_reads_back: account records (balance, energy, master, code hash, storage root) *)
-  Theorem reopen_reads_back_partial s major minor a :
-    get_account hk hs (commit_reopen hk hs trimkey s major minor) a =
-    match trie_get aleaf (stage hk hs trimkey s major minor) (hk a) with
-    | Some (acc, _) => acc
-    | None => empty_account
-    end.
-  Proof. exact (reopen_reads hk hs trimkey s major minor a). Qed.
+  (* ... and that content is normalise (abs s) — reopen_reads_back: for every state reached by state operations from a
+     legal base (well-formed tries, no empty account stored; Nil is one, and Stage re-establishes it), the state
+     re-opened on the committed root reads, for every address: the empty account with empty storage if the account
+     is empty at Stage (empty accounts are dropped with their storage: account.go IsEmpty/saveAccount), and otherwise
+     the same balance, energy, block time, master and code hash and the same raw value in every storage slot
+     (the storage root is the new storage trie; it is explicit whenever storage was written). *)
+  Theorem reopen_reads_back base codes ops major minor a :
+    base_ok hk base -> Forall state_op ops ->
+    let s := run_state hk hs ops (open base codes) in
+    let s' := commit_reopen hk hs trimkey s major minor in
+    let x := get_account hk hs s a in
+    let y := get_account hk hs s' a in
+    (is_empty x = true -> y = empty_account /\ forall k, get_raw_storage hk hs s' a k = []) /\
+    (is_empty x = false -> same_fields y x /\ forall k, get_raw_storage hk hs s' a k = get_raw_storage hk hs s a k).
+  Proof.
+    intros Hb Hops.
+    destruct (reachable_invs hk hs base codes ops Hops) as [A [B [C D]]].
+    apply (reopen_reads_back_lemma hk hs trimkey hk_valid hk_inj hs_valid hs_inj _ major minor A B C).
+    rewrite D. exact Hb.
+  Qed.
+
+  (* the committed trie is a legal base again, so the two theorems above apply along whole chains of blocks *)
+  Theorem stage_reestablishes_base base codes ops major minor :
+    base_ok hk base -> Forall state_op ops ->
+    base_ok hk (stage hk hs trimkey (run_state hk hs ops (open base codes)) major minor).
+  Proof.
+    intros Hb Hops.
+    destruct (reachable_invs hk hs base codes ops Hops) as [A [B [C D]]].
+    apply (stage_base_ok hk hs trimkey hk_valid hk_inj hs_valid _ major minor A B C).
+    rewrite D. exact Hb.
+  Qed.
 End C06_state.
 
 (* ---- non-vacuity: concrete keys / histories meeting the hypotheses ---- *)
@@ -144,8 +176,24 @@ Example sm_history_ok :
   inv nat nat Nat.eqb (sm_new nat nat).
 Proof. repeat split; repeat constructor; auto; try discriminate. Qed.
 
-Example hk_example : vkey (terminate [3; 15; 0; 7]) /\ wfc aleaf Nil.
-Proof. split; [apply vkey_terminate; repeat constructor|left; reflexivity]. Qed.
+Example hk_example : vkey (terminate [3; 15; 0; 7]) /\ wfc aleaf Nil /\ (forall hk, base_ok hk Nil) /\
+  Forall state_op [OBal 1%N 5%N; OCp; OSto 1%N 2%N [7%N]; ODel 1%N; ORev 1%nat; ORaw 1%N 2%N [1%N]].
+Proof.
+  split; [apply vkey_terminate; repeat constructor|]. split; [left; reflexivity|]. split; [intros; apply base_ok_nil|].
+  repeat constructor.
+Qed.
+
+(* the key hypotheses are satisfiable (the real instance is keybytesToHex (Blake2b x): valid for every byte string,
+   see Trie/DeriveRoot.v key_of_bytes_valid; injectivity is collision-freeness of Blake2b) *)
+Example key_hyps_example :
+  let hk := fun a : N => terminate (repeat 1 (N.to_nat a)) in
+  (forall a, vkey (hk a)) /\ (forall a b, hk a = hk b -> a = b).
+Proof.
+  split.
+  - intros a. apply vkey_terminate. unfold nibs. induction (N.to_nat a); cbn; constructor; auto; lia.
+  - intros a b E. unfold terminate in E. apply app_inv_tail in E.
+    apply (f_equal (@length nat)) in E. rewrite !repeat_length in E. apply N2Nat.inj; auto.
+Qed.
 
 Example ops_valid : valid_ops nat ex_ops1 /\ valid_ops nat ex_ops2.
 Proof. split; repeat constructor. Qed.
@@ -165,6 +213,9 @@ Print Assumptions trie_history_refines_map.
 Print Assumptions stackedmap_refines_stack_of_maps.
 Print Assumptions revert_restores.
 Print Assumptions stackedmap_inv_reachable.
+Print Assumptions state_refines_map.
+Print Assumptions world_runs_state_ops.
 Print Assumptions stage_wf_preserved.
-Print Assumptions stage_root_canonical_partial.
-Print Assumptions reopen_reads_back_partial.
+Print Assumptions stage_root_canonical.
+Print Assumptions reopen_reads_back.
+Print Assumptions stage_reestablishes_base.
